@@ -273,7 +273,12 @@ def run(ctx):
     r5.check(len(tail) >= 2 and isinstance(tail[-1], ast.Return), "workbook_to_json:meta slice", "the statements that assemble the meta block (through the final return) were found", w2j.loc(),
              why_fail=f"{[norm(t)[:40] for t in tail]}")
     from ..interp import _Return
-    for omit, pk, iname, iid in itertools.product([None, "yes", "no", "true()"], [None, "KEY"], [None, "concat(${a})"], [None, "customid"]):
+    from .c10 import lexer_hook
+    lex_hooks = {"fnname:parse_expression": lexer_hook(ctx, "C11.R5")}
+    # (instance_name in every form an author writes it: an expression, a bare path, a comparison, a literal, plain words -
+    # the calculation is the setting, character for character)
+    INAMES = [None, "concat(${a})", "/data/hh_id", "../hh_id", "/data/a = /data/b", "'Household'", "Household survey", "${a}", "uuid()"]
+    for omit, pk, iname, iid in itertools.product([None, "yes", "no", "true()"], [None, "KEY"], INAMES, [None, "customid"]):
         settings = {}
         if omit is not None:
             settings["omit_instanceID"] = omit
@@ -283,7 +288,7 @@ def run(ctx):
             settings["instance_name"] = iname
         if iid:
             settings["instance_id"] = iid
-        it = ctx.interp("C11.R5")
+        it = ctx.interp("C11.R5", hooks=lex_hooks, inline=lambda fi: True)
         it.reset([])
         root_children = []
         env = {"settings": settings, "meta_children": [], "entity_declaration": None, "json_dict": {}, "stack": [{"parent_children": root_children}]}
@@ -318,7 +323,7 @@ def run(ctx):
         if not (has_audit or has_entity):
             continue
         settings_ = {"omit_instanceID": omit_} if omit_ else {}
-        itm = ctx.interp("C11.R5")
+        itm = ctx.interp("C11.R5", hooks=lex_hooks, inline=lambda fi: True)
         itm.reset([])
         root_children_ = []
         audit_ = {"name": "audit", "type": "audit"}
